@@ -104,6 +104,13 @@
 /* set the default stacksize for threads to 128k */
 #define DSH_THREAD_STACKSIZE    128*1024
 
+/*
+ * The rpdcp receiver (pcp_server.c:_sink) runs inside the worker thread and
+ *  recurses once per directory level received (up to PATH_MAX/2 levels can
+ *  be created), so these threads get a stack like the main thread's.
+ */
+#define PCP_SERVER_STACKSIZE    8*1024*1024
+
 #include "src/common/list.h"
 #include "src/common/xmalloc.h"
 #include "src/common/xstring.h"
@@ -1177,7 +1184,8 @@ int dsh(opt_t * opt)
         }
 
         /* create thread */
-        _dsh_attr_init (&t[i].attr, DSH_THREAD_STACKSIZE);
+        _dsh_attr_init (&t[i].attr, t[i].pcp_Popt ? PCP_SERVER_STACKSIZE
+                                                  : DSH_THREAD_STACKSIZE);
 #ifdef 	PTHREAD_SCOPE_SYSTEM
         /* we want 1:1 threads if there is a choice */
         pthread_attr_setscope(&t[i].attr, PTHREAD_SCOPE_SYSTEM);
